@@ -468,8 +468,17 @@ def modfunc(ex, state, mod, name, args, kw, line):
     if name in ('conj', 'conjugate', 'real', 'abs', 'reciprocal', 'sqrt', 'exp'):
         a = args[0]
         if isinstance(a, SArr):
-            return npmodel.conj(ex, state, a, line)
-        return SNum(name)
+            r = npmodel.conj(ex, state, a, line)
+            if name in ('real', 'abs'):
+                r = r.with_(cplx=z3.BoolVal(False))       # the real part / the modulus of a complex array is a real array
+                npmodel.set_roles(r, npmodel.roles_of(a))
+            return r
+        cx = a.cplx if isinstance(a, SNum) and name not in ('real', 'abs') else z3.BoolVal(False)
+        return SNum(name, cplx=cx, nonneg=z3.BoolVal(True) if name == 'abs' else None)
+    if name == 'vdot':
+        a, b = npmodel.need_rank(ex, state, args[0], line), npmodel.need_rank(ex, state, args[1], line)
+        ctx.oblige(state, 'vdot-size', line, npmodel.prod(a.shape) == npmodel.prod(b.shape), 'cannot dot arrays of different sizes')
+        return SNum('vdot', cplx=z3.simplify(z3.Or(a.cplx, b.cplx)))
 
     if name in ('true_divide', 'divide', 'power', 'log', 'cos', 'sin', 'floor', 'ceil') and not any(isinstance(a, SArr) for a in args):
         return SNum(name)
